@@ -813,7 +813,7 @@ func (g *generator) step() (res Value, resultType resultType, ex *Exception) {
 		for {
 			ex = vm.runTryInner()
 			if ex != nil {
-				if vm.prg != nil || vm.pc != -2 {
+				if len(vm.tryStack) > int(g.tryStackLen) {
 					// The exception was thrown in the outermost finally block, it never got to leaveFinally
 					// which does popTryFrame()
 					vm.popTryFrame()
@@ -901,7 +901,7 @@ func (g *generator) nextThrow(v interface{}) (Value, resultType, *Exception) {
 	g.enterNext()
 	defer g.leaveOnPanic()
 	ex := g.vm.handleThrow(v)
-	if ex != nil && (g.vm.prg != nil || g.vm.pc != -2) {
+	if ex != nil && len(g.vm.tryStack) > int(g.tryStackLen) {
 		// Stopped at the frame of a finally block that was entered by return() (see enterNextFinallyFrame),
 		// not at the marker frame: the exception replaces the pending return and propagates further.
 		g.returning = nil
